@@ -55,7 +55,8 @@ def run(ctx, want_follow=False):
     files = gramjobs.shipped_grammar_files()
     n_synth = 160 if ctx.tier == 'quick' else 2400
     chunk = 10 if ctx.tier == 'quick' else 50
-    ctx.bound('systematic family: all 20640 grammars r0: <EBNF term with <= 3 operators over a, b, r0 (self), r1>; r1: b a | a (complete)')
+    ctx.bound('systematic families (complete): all 20640 grammars r0: <EBNF term with <= 3 operators over a, b, r0 (self), r1>; r1: b a | a, and '
+              'all 870 grammars r0: <term with <= 2 operators over a, b, r1>; r1: r0 b | a  resp.  a [r0] b (indirect recursion)')
     ctx.bound('synthetic grammars: %d pseudo-random well-formed EBNF grammars (seed %d), 1-3 rules, <=6 operators '
               'per right-hand side over |,[],(),*,+, terminals NAME NUMBER STRING and three strings; the family is '
               'sampled, the sentence/state/token quantifiers inside each member are the solver\'s' % (n_synth, ctx.seed))
@@ -65,7 +66,7 @@ def run(ctx, want_follow=False):
         tjobs = [(t, ex.submit(gramjobs.job_twin, files[len(files) // 2], t)) for t in gramjobs.TWINS]
         sjobs = [ex.submit(gramjobs.job_synth, ctx.seed, lo, min(lo + chunk, n_synth))
                  for lo in range(0, n_synth, chunk)]
-        n_sys = 20640
+        n_sys = 20640 + 870
         step = 430
         yjobs = [(lo, ex.submit(gramjobs.job_synth, ctx.seed, lo, lo + step, True)) for lo in range(0, n_sys, step)]
         for p, j in fjobs:
@@ -107,7 +108,7 @@ def run(ctx, want_follow=False):
                     kind='z3-query-batch', detail='%d grammars "r0: <term, <=3 operators over a, b, r0, r1>; r1: b a | a": %d accepted, %d '
                     'rejected, %d solver obligations (language equality, LL(1) verdict = accept/raise, tables) all discharged' % (
                         len(out), a, len(out) - a, nobl),
-                    bound='the complete family of 20640 two-rule grammars; sentences unbounded')
+                    bound='the complete families of 20640 + 870 two-rule grammars; sentences unbounded')
             if out and lo % 4300 == 0:
                 ctx.sample({'systematic': out[len(out) // 2]['text'], 'accepted': out[len(out) // 2].get('accepted')})
         ctx.notes.append('synthetic grammars: %d accepted as LL(1), %d rejected; both verdicts agreed with the '
